@@ -35,7 +35,45 @@ cglue_impl_group!(P2, MGrp, {});
 cglue_trait_group!(BGrp, BorrowRef, { BorrowMut });
 cglue_impl_group!(P, BGrp, { BorrowMut });
 
+/// zero-sized payload WITH a destructor (no allocation behind the box, but the value still has to be dropped)
+pub struct Zd;
+static mut ZD_DROPS: u32 = 0;
+impl Drop for Zd {
+    fn drop(&mut self) {
+        unsafe { ZD_DROPS += 1 };
+    }
+}
+impl LeafExtra for Zd {
+    fn extra(&self) -> u32 {
+        17
+    }
+}
+
 nd::harnesses! {
+    /// Zero-sized payloads are dropped exactly once too (CBox, boxed object, opaque form, into_inner).
+    #[kani::unwind(4)]
+    fn c06_zero_sized_payload_with_destructor() {
+        assert!(core::mem::size_of::<Zd>() == 0);
+        unsafe { ZD_DROPS = 0 };
+        let path: u8 = nd::any();
+        nd::assume(path < 4);
+        match path {
+            0 => drop(CBox::from(Zd)),
+            1 => drop(CBox::from(Zd).into_opaque()),
+            2 => {
+                let obj = trait_obj!(Zd as LeafExtra);
+                assert!(obj.extra() == 17);
+                unsafe { assert!(ZD_DROPS == 0) };
+            }
+            _ => {
+                let z: Zd = unsafe { CBox::from(Zd).into_inner() };
+                unsafe { assert!(ZD_DROPS == 0) };
+                drop(z);
+            }
+        }
+        unsafe { assert!(ZD_DROPS == 1, "a zero-sized payload is dropped exactly once") };
+    }
+
     /// Boxed single-trait object: drop, move, consuming calls, owned children in both drop orders.
     #[kani::unwind(4)]
     fn c06_object_paths() {
